@@ -1,5 +1,6 @@
 import SwcVerif.Props.C18
 import SwcVerif.Props.C05
+import SwcVerif.Props.C18Gen
 #print axioms C18.dsu_refines_partition
 #print axioms C18.runOps_cons
 #print axioms C18.invalid_rejected
@@ -22,3 +23,10 @@ import SwcVerif.Props.C05
 #print axioms C18.getDsu_total
 #print axioms C18.isSingleRoot_total
 #print axioms C05.isSorted_iff
+#print axioms RefineDsu.find_refines
+#print axioms RefineDsu.union_refines
+#print axioms RefineDsu.same_refines
+#print axioms RefineDsu.init_refines
+#print axioms RefineDsu.script_refines
+#print axioms RefineDsu.script_refines_init
+#print axioms C18.generated_dsu_refines_partition
